@@ -12,12 +12,58 @@ R == Recs[t]
    loop / path verdict of C10 and the two returned point sets (as point-number lists) *)
 RECURSIVE SortedInts(_)
 SortedInts(S) == IF S = {} THEN <<>> ELSE LET m == CHOOSE x \in S : \A y \in S : x <= y IN <<m>> \o SortedInts(S \ {m})
-IsFrame == "kind" \in DOMAIN R /\ R.kind = "frame"
+(* The same notions on a grid graph written with cell arithmetic and a frontier search: what GraphDefs defines by a
+   closure over the edge list costs O(n^2 m) in TLC, too slow for the scale-up boards (289 - 300 cells).  GridAgree
+   (checked by TLC for every record of at most 100 cells) ties them to the definitions. *)
+Nbrs(h, w, c) == {d \in {c - 1, c + 1, c - w, c + w} :
+                    d >= 0 /\ d < h * w /\ (d = c - 1 => c % w # 0) /\ (d = c + 1 => d % w # 0)}
+RECURSIVE GrowGrid(_, _, _, _, _)
+GrowGrid(h, w, S, Reached, Frontier) ==
+    LET N == ((UNION {Nbrs(h, w, c) : c \in Frontier}) \cap S) \ Reached
+    IN  IF N = {} THEN Reached ELSE GrowGrid(h, w, S, Reached \cup N, N)
+ConnectedGrid(h, w, S) == S = {} \/ LET r == CHOOSE c \in S : TRUE IN GrowGrid(h, w, S, {r}, {r}) = S
+InducedEdgesGrid(h, w, S) == Cardinality({c \in S : c % w # w - 1 /\ c + 1 \in S}) + Cardinality({c \in S : c + w \in S})
+IsTreeGrid(h, w, S)  == S = {} \/ (ConnectedGrid(h, w, S) /\ InducedEdgesGrid(h, w, S) = Cardinality(S) - 1)
+NotAdjGrid(h, w, S)  == InducedEdgesGrid(h, w, S) = 0
+NotSegGrid(h, w, S)  == NotAdjGrid(h, w, S) /\ ConnectedGrid(h, w, (0 .. h * w - 1) \ S)
+GridAgree == t = 0 \/ ("kind" \in DOMAIN R /\ R.kind # "grid") \/ R.h * R.w > 100 \/
+    LET g == GridGraph(R.h, R.w)  S == {R.active[i] : i \in DOMAIN R.active} IN
+    /\ ConnectedGrid(R.h, R.w, S) = Connected(g, S) /\ IsTreeGrid(R.h, R.w, S) = IsTree(g, S)
+    /\ NotAdjGrid(R.h, R.w, S) = NotAdj(g, S) /\ NotSegGrid(R.h, R.w, S) = NotSeg(g, S)
+
+Kind == IF "kind" \in DOMAIN R THEN R.kind ELSE "grid"
+(* kind "grid" (default): [t, h, w, active (cell numbers)]                                   -> NotAdj / NotSeg / Connected / IsTree
+   kind "frame": [t, h, w, cyc, active (segment numbers, 1-based, Lattice order)]            -> crossable verdict + point sets
+   kind "div":   [t, h, w, labels (per cell), R, roots (per label: cell number or -1), allow_empty] -> DivOK
+   kind "parts": [t, h, w, rgs (block id per cell), sizes (per cell, -1 = no size)]          -> Realisable *)
 Report == t = 0 \/
-    IF IsFrame
-    THEN LET g == TLCEval(Lattice(R.h, R.w))  A == {R.active[i] : i \in DOMAIN R.active} IN
-         PrintT(ToJson([t |-> R.t, ok |-> Crossable(g, A, R.cyc),
-                        passed |-> SortedInts(Touched(g, A)), cross |-> SortedInts({v \in V(g) : Deg(g, A, v) = 4})]))
-    ELSE LET g == TLCEval(GridGraph(R.h, R.w))  S == {R.active[i] : i \in DOMAIN R.active} IN
-         PrintT(ToJson([t |-> R.t, notadj |-> NotAdj(g, S), notseg |-> NotSeg(g, S), connected |-> Connected(g, S)]))
+    CASE Kind = "frame" ->
+           LET g == TLCEval(Lattice(R.h, R.w))  A == {R.active[i] : i \in DOMAIN R.active} IN
+           PrintT(ToJson([t |-> R.t, ok |-> Crossable(g, A, R.cyc),
+                          passed |-> SortedInts(Touched(g, A)), cross |-> SortedInts({v \in V(g) : Deg(g, A, v) = 4})]))
+      [] Kind = "div" ->
+           LET g == TLCEval(GridGraph(R.h, R.w))
+               lab == [v \in 0 .. g.n - 1 |-> R.labels[v + 1]]
+               roots == [i \in DOMAIN R.roots |-> IF R.roots[i] < 0 THEN {} ELSE {R.roots[i]}] IN
+           PrintT(ToJson([t |-> R.t, ok |->
+               IF g.n > 100
+               THEN /\ \A i \in 0 .. R.R - 1 : ConnectedGrid(R.h, R.w, {v \in 0 .. g.n - 1 : lab[v] = i})
+                    /\ R.allow_empty \/ \A i \in 0 .. R.R - 1 : \E v \in 0 .. g.n - 1 : lab[v] = i
+                    /\ \A i \in DOMAIN roots : roots[i] # {} => \A r \in roots[i] : lab[r] = i - 1
+               ELSE DivOK(g, lab, R.R, roots, R.allow_empty)]))
+      [] Kind = "parts" ->
+           LET g == TLCEval(GridGraph(R.h, R.w))
+               P == {{v \in 0 .. g.n - 1 : R.rgs[v + 1] = b} : b \in {R.rgs[i] : i \in DOMAIN R.rgs}}
+               sz == [v \in 0 .. g.n - 1 |-> R.sizes[v + 1]] IN
+           PrintT(ToJson([t |-> R.t, ok |-> (\A B \in P : IF g.n > 100 THEN ConnectedGrid(R.h, R.w, B) ELSE Connected(g, B)) /\
+                                            \A v \in 0 .. g.n - 1 : sz[v] >= 0 =>
+                                                \E B \in P : v \in B /\ Cardinality(B) = sz[v]]))
+      [] OTHER ->
+           LET S == {R.active[i] : i \in DOMAIN R.active} IN
+           IF R.h * R.w > 100
+           THEN PrintT(ToJson([t |-> R.t, notadj |-> NotAdjGrid(R.h, R.w, S), notseg |-> NotSegGrid(R.h, R.w, S),
+                               connected |-> ConnectedGrid(R.h, R.w, S), tree |-> IsTreeGrid(R.h, R.w, S)]))
+           ELSE LET g == TLCEval(GridGraph(R.h, R.w)) IN
+                PrintT(ToJson([t |-> R.t, notadj |-> NotAdj(g, S), notseg |-> NotSeg(g, S), connected |-> Connected(g, S),
+                               tree |-> IsTree(g, S)]))
 =============================================================================
